@@ -1,5 +1,4 @@
-//go:build verif
-
+//go:build verif && verif_c19
 // Verification hooks for property C19 (date/time <-> serial number): thin
 // exported wrappers around the unexported conversion functions of date.go and
 // cell.go so that the correspondence harness can call them in-process without
